@@ -82,13 +82,15 @@ package tmstate
 //@     timers(0) == (rlc.CancelTimer != nil ? 1 : 0)
 
 // Round/height changes (large functions, not yet verified themselves): what their callers rely on.
+// (When they fail the context is cancelled and the state machine stops: its round state is not used again, so the timer
+// invariant is stated unconditionally here.)
 //@ func StateMachine.advanceRound
 //@   trusted
-//@   ensures result ==> TimerInv(rlc)
+//@   ensures TimerInv(rlc)
 //@   modifies heap
 //@ func StateMachine.advanceHeight
 //@   trusted
-//@   ensures result ==> TimerInv(rlc)
+//@   ensures TimerInv(rlc)
 //@   modifies heap
 
 //@ func StateMachine.recordPrevote
@@ -132,12 +134,29 @@ package tmstate
 //@   property C08 C12
 //@   requires TimerInv(rlc) && vrv.VoteSummary.AvailablePower > 0
 //@   requires rlc.S == tsi.StepAwaitingPrecommits || rlc.S == tsi.StepPrecommitDelay
+//@   ensures timer-inv-kept: TimerInv(rlc)
 //@   modifies heap
 
 //@ func StateMachine.handlePrevoteViewUpdate
 //@   property C08 C12
 //@   requires TimerInv(rlc) && vrv.VoteSummary.AvailablePower > 0 && rlc.PrecommitHashCh != nil
 //@   requires rlc.S == tsi.StepAwaitingPrevotes || rlc.S == tsi.StepPrevoteDelay
+//@   ensures timer-inv-kept: TimerInv(rlc)
+//@   modifies heap
+
+//@ func tsi.ConsiderProposedBlocksRequest.MarkReasonNewHashes
+//@   property C08
+//@   requires rlc.PrevConsideredHashes != nil
+//@   modifies r.Reason.NewProposedBlocks, rlc.PrevConsideredHashes[*]
+
+// While awaiting a proposal the view can already show that the network moved on: every branch that leaves the step
+// cancels the proposal timer, and a timer is armed again only for a timed step.
+//@ func StateMachine.handleProposalViewUpdate
+//@   property C08 C12
+//@   option explicit-panics allowed
+//@   requires TimerInv(rlc) && rlc.S == tsi.StepAwaitingProposal && vrv.VoteSummary.AvailablePower > 0
+//@   requires rlc.VRV != nil && rlc.PrecommitHashCh != nil && rlc.PrevoteHashCh != nil && rlc.PrevConsideredHashes != nil
+//@   ensures timer-inv-kept: TimerInv(rlc)
 //@   modifies heap
 
 //@ func StateMachine.handleBlockDataArrival
